@@ -247,14 +247,16 @@ var cacheDocs = []string{
 	`<mjml><mj-body><mj-section><mj-column><mj-text>Doc A</mj-text></mj-column></mj-section></mj-body></mjml>`,
 	`<mjml><mj-body><mj-section><mj-column><mj-text>Doc B</mj-text></mj-column></mj-section></mj-body></mjml>`,                // differs from A in one byte
 	`<mjml><mj-body><mj-section><mj-column><mj-text>unclosed</mj-column></mj-section></mj-body></mjml>`,                       // unparsable
-	`<mjml><mj-body><mj-section><mj-column><mj-text bogus-attr="1">Doc V</mj-text></mj-column></mj-section></mj-body></mjml>`, // validation error, HTML still returned
+	// validation error, HTML still returned; longer than every other document (a parse buffer reused between compilations is
+	// overwritten over its whole length by this one)
+	`<mjml><mj-body><mj-section><mj-column><mj-text bogus-attr="1">Doc V ` + strings.Repeat("lorem ipsum dolor sit amet ", 120) + `</mj-text></mj-column></mj-section></mj-body></mjml>`,
 	// the same document as the previous one behind two blank lines: same HTML, but the validation error names another line
 	"\n\n" + `<mjml><mj-body><mj-section><mj-column><mj-text bogus-attr="1">Doc V</mj-text></mj-column></mj-section></mj-body></mjml>`,
 	// document A followed by trailing whitespace: differs from A only after the root element
 	`<mjml><mj-body><mj-section><mj-column><mj-text>Doc A</mj-text></mj-column></mj-section></mj-body></mjml>` + "\n  ",
 	// a document whose head the renderer READS while rendering (mj-class with the name not written last, mj-attributes
 	// defaults, an inline style rule): a cached tree that a render has modified shows up as a different second result
-	`<mjml><mj-head><mj-attributes><mj-class color="#ff0000" name="red" font-size="20px"/><mj-text padding="1px" bogus-default="x"/><mj-all font-family="Arial"/></mj-attributes><mj-style inline="inline">.k { color: blue; }</mj-style></mj-head><mj-body><mj-section><mj-column><mj-text mj-class="red" css-class="k">Doc C</mj-text><mj-text color="#00ff00" align="center" bogus="1">Doc C2 <span class="k" style="margin:0">s</span></mj-text><mj-table><tr class="k" style="height:9px"><td style="padding:1px" class="k" align="left">cell</td></tr></mj-table><mj-button href="u"><b class="k" style="top:0">B</b></mj-button><mj-raw><i style="left:0" class="k">r</i></mj-raw></mj-column></mj-section></mj-body></mjml>`,
+	`<mjml><mj-head><mj-attributes><mj-class color="#ff0000" name="red" font-size="20px"/><mj-text padding="1px" bogus-default="x"/><mj-all font-family="Arial"/></mj-attributes><mj-style inline="inline">.k { color: blue; }</mj-style><mj-raw><meta name="raw-in-head" content="1"/></mj-raw></mj-head><mj-body><mj-section><mj-column><mj-text mj-class="red" css-class="k">Doc C</mj-text><mj-text color="#00ff00" align="center" bogus="1">Doc C2 <span class="k" style="margin:0">s</span></mj-text><mj-table><tr class="k" style="height:9px"><td style="padding:1px" class="k" align="left">cell</td></tr></mj-table><mj-button href="u"><b class="k" style="top:0">B</b></mj-button><mj-raw><i style="left:0" class="k">r</i></mj-raw></mj-column><mj-raw><p>raw between columns</p></mj-raw></mj-section></mj-body></mjml>`,
 }
 
 const cacheOkBits = "1101111"
